@@ -262,6 +262,7 @@ type gen struct {
 	stateful bool
 	noCLI    bool
 	names    map[string]int // helper names used
+	inReduce int
 }
 
 func newGen(r *run.Rand) *gen {
@@ -403,6 +404,9 @@ func (g *gen) callFor(k kind, d int, sc *scope, inConst bool) *Node {
 	if c >= 0 {
 		return g.tableCall(&table[c], d, sc, inConst)
 	}
+	if special[-1-c].n == "@reduce" && g.inReduce > 0 {
+		return g.leaf(k, sc, inConst)
+	}
 	return g.specialCall(special[-1-c].n, d, sc, inConst)
 }
 
@@ -458,9 +462,16 @@ func (g *gen) tableCall(h *hspec, d int, sc *scope, inConst bool) *Node {
 func (g *gen) userCall(f *ufunc, d int, sc *scope) *Node {
 	c := call(f.Name)
 	c.User = true
-	n := g.r.Range(1, len(f.Params)+1)
-	if len(f.Params) > 0 && g.r.Intn(3) > 0 {
-		n = len(f.Params)
+	// exactly the declared arguments, fewer (missing ones are empty) or one more
+	n := len(f.Params)
+	switch x := g.r.Intn(10); {
+	case x < 3 && n > 1:
+		n = g.r.Range(1, n-1)
+	case x < 5:
+		n++
+	}
+	if n < 1 {
+		n = 1 // {name} alone is a key lookup, not a call
 	}
 	for i := 0; i < n; i++ {
 		k := kX
@@ -494,7 +505,14 @@ func (g *gen) specialCall(name string, d int, sc *scope, inConst bool) *Node {
 	case "@filter":
 		return call("@filter", g.gen(kA, d-1, sc, inConst), g.subExpr(kB, d-1, g.sub(sc, kX), inConst))
 	case "@reduce":
-		c := call("@reduce", g.gen(kA, d-1, sc, inConst), g.subExpr(kX, d-1, g.sub(sc, kX, kX), inConst))
+		// a reducer may use the memo several times (and csv doubles quotes), so
+		// the result can grow geometrically with the array length: reduce over
+		// at most 5 elements and never nest a @reduce inside a reducer
+		arr := call("@slice", g.gen(kA, d-1, sc, inConst), &Node{K: nLit, S: "0", NoLift: true}, &Node{K: nLit, S: strconv.Itoa(g.r.Range(2, 5)), NoLift: true})
+		g.inReduce++
+		red := g.subExpr(kX, d-1, g.sub(sc, kX, kX), inConst)
+		g.inReduce--
+		c := call("@reduce", arr, red)
 		if g.r.Intn(2) == 0 {
 			c.A = append(c.A, &Node{K: nLit, S: []string{"", "0", "x"}[g.r.Intn(3)], NoLift: true})
 		}
